@@ -326,6 +326,24 @@ func eligibleFunc(ftype *ast.FuncType, recv *ast.FieldList, body *ast.BlockStmt,
 	return true, ""
 }
 
+// forCondOf: the for statement without init and post statements whose condition contains n.
+func forCondOf(parents map[ast.Node]ast.Node, n ast.Node) *ast.ForStmt {
+	child := n
+	for x := parents[n]; x != nil; x = parents[x] {
+		switch y := x.(type) {
+		case *ast.ForStmt:
+			if y.Cond != nil && ast.Node(y.Cond) == child && y.Init == nil && y.Post == nil {
+				return y
+			}
+			return nil
+		case ast.Stmt, *ast.FuncLit:
+			return nil
+		}
+		child = x
+	}
+	return nil
+}
+
 func buildParents(f *ast.File) map[ast.Node]ast.Node {
 	parents := map[ast.Node]ast.Node{}
 	var stack []ast.Node
@@ -455,6 +473,18 @@ func inlineRound(sp *srcPkg, res *inlineResult, round int) (bool, error) {
 			if candDecl[encl] {
 				// a use inside another candidate: handled once that candidate has been inlined
 				c.keep = true
+				continue
+			}
+			// a call in the condition of a plain `for cond { ... }`: the loop is first rewritten to the equivalent
+			// `for { if !(cond) { break }; ... }` (continue still re-evaluates the condition at the top); the
+			// next round inlines the call in the if statement
+			if fs := forCondOf(parents, call); fs != nil {
+				c.keep = true
+				if !usedStmt[fs] {
+					usedStmt[fs] = true
+					edits[f] = append(edits[f], textEdit{sp.off(fs.For), sp.off(fs.Body.Lbrace) + 1,
+						"for { if !(" + sp.text(f, fs.Cond.Pos(), fs.Cond.End()) + ") { break };"})
+				}
 				continue
 			}
 			ok, why := sp.inlineSite(f, c, call, sel, parents, edits, addImports, usedStmt)
